@@ -63,7 +63,9 @@ func NewMerger(ki *kmerindex.Index, query *linear.Seq, filterParams *Params, max
 // Merge a filter hit into the collection.
 func (m *Merger) MergeFilterHit(h *Hit) {
 	Left := -h.Diagonal
-	if m.selfComparison && Left <= m.filterParams.MaxError {
+	// The aligner widens every trapezoid by maxIGap diagonals, so keep that
+	// far away from the main diagonal in a self comparison.
+	if m.selfComparison && Left-m.maxIGap <= m.filterParams.MaxError {
 		return
 	}
 	Top := h.To
